@@ -26,6 +26,25 @@ def _mkscratch():
     return tempfile.mkdtemp(prefix="verif-", dir=base)
 
 
+_POOL_TIMEOUT_S = 3600    # a dead worker must not hang the driver for ever
+
+
+def _safe(fn):
+    """Pool workers must only raise picklable exceptions (a ConductorError with keyword-only
+    constructor arguments cannot be unpickled in the parent and would hang the pool)."""
+    import functools
+    import traceback
+
+    @functools.wraps(fn)
+    def wrapper(job):
+        try:
+            return fn(job)
+        except BaseException:
+            raise RuntimeError("harness worker %s crashed on job %r:\n%s"
+                               % (fn.__name__, job, traceback.format_exc())) from None
+    return wrapper
+
+
 # --------------------------------------------------------------------------- accumulator
 def _size(inp):
     text = json.dumps(inp, default=str, sort_keys=True)
@@ -218,6 +237,7 @@ def _commit_str(c):
     return cname(c)
 
 
+@_safe
 def _select_worker(job):
     dag, max_versions = job
     from conductor.execution.version_index import Version
@@ -237,8 +257,7 @@ def _select_worker(job):
                              run="true", args=[], options={}, parallelizable=False)
 
     settings = [(False, None)] + [(True, h) for h in [None] + list(range(n))]
-    # git disabled/unused is independent of the DAG: enumerate it with the empty and the
-    # largest DAGs only (Context.current_commit is None whenever uses_git is False)
+    # Context.current_commit is None whenever uses_git is False, so "git unused" has no HEAD
     for uses_git, head in settings:
         for vlist in version_lists(n, max_versions):
             versions = [Version(ts, _commit_str(c), (ts // 10) % 2 == 1) for ts, c in vlist]
@@ -454,6 +473,7 @@ CLOCKS = [99.0, 100.0, 100.9, 101.2, 103.0]
 INITIAL_LAST = [0, 99, 100, 101, 105]
 
 
+@_safe
 def _generator_worker(job):
     first_clock, max_len = job
     import conductor.execution.version_index as vi
@@ -489,7 +509,11 @@ def _generator_worker(job):
                     produced = []
                     for i in range(len(seq)):
                         commit = commits[(i + len(seq)) % 3]
-                        v = index.generate_new_output_version(commit)
+                        try:
+                            v = index.generate_new_output_version(commit)
+                        except Exception as ex:
+                            a.fail("no_exception", "generator-raises", inp, "a version", type(ex).__name__)
+                            break
                         new_last = index._last_timestamp
                         if not isinstance(v.timestamp, int) or isinstance(v.timestamp, bool):
                             a.fail("int_timestamp", "timestamp-not-int", inp, "int", repr(v.timestamp))
@@ -518,7 +542,6 @@ def _generator_worker(job):
 
 def _create_or_load():
     import conductor.execution.version_index as vi
-    from conductor.task_identifier import TaskIdentifier
     from unittest import mock
 
     a = Acc()
@@ -537,10 +560,10 @@ def _create_or_load():
         for n, rows in enumerate(row_sets):
             path = pathlib.Path(scratch, "p%d" % n, "cond-out", "version_index.sqlite")
             index = vi.VersionIndex.create_or_load(path)
-            for ident, ts in rows:
-                index.insert_output_version(TaskIdentifier.from_str(ident),
-                                            vi.Version(ts, "abc" if ts % 200 else None, False))
-            index.commit_changes()
+            index._conn.executemany(      # rows by explicit column names (fixture, not under test)
+                "INSERT INTO version_index (task_identifier, timestamp, git_commit_hash, has_uncommitted_changes) VALUES (?, ?, ?, ?)",
+                [(ident, ts, "abc" if ts % 200 else None, 0) for ident, ts in rows])
+            index._conn.commit()
             index._conn.close()
             if not path.is_file():
                 raise RuntimeError("harness: version index file was not created")
@@ -551,7 +574,8 @@ def _create_or_load():
                 with mock.patch.object(vi, "time", fake_time_mod):
                     index = vi.VersionIndex.create_or_load(path)
                     try:
-                        stored = sorted((str(i), v.timestamp) for i, v in index.get_all_versions())
+                        stored = sorted(index._conn.execute(
+                            "SELECT task_identifier, timestamp FROM version_index").fetchall())
                         if stored != sorted(rows):
                             raise RuntimeError("harness: rows not persisted: %r" % (stored,))
                         v1 = index.generate_new_output_version(None)
@@ -590,12 +614,12 @@ def run(tier, seed):
         jobs = sorted([(d, max_versions) for d in dags], key=lambda j: -len(j[0]))
         sel_job = pool.map_async(_select_worker, jobs, chunksize=1)
         gen_job = pool.map_async(_generator_worker, [(c, max_len) for c in CLOCKS], chunksize=1)
-        for s, r, o in sel_job.get():
+        for s, r, o in sel_job.get(_POOL_TIMEOUT_S):
             sel.merge(s)
             run_.merge(r)
             outp.merge(o)
         wall_sel = time.time() - t0
-        for g in gen_job.get():
+        for g in gen_job.get(_POOL_TIMEOUT_S):
             gen.merge(g)
         wall_gen = time.time() - t0
     t0 = time.time()
